@@ -88,23 +88,23 @@ theorem properSplit_proper (n : Nat) (fs : List Nat) (h : ProperSplit n fs) :
 
 /-! ### Check level: the per-key verdict of every factoring RSA check
 
-`Verdict.Sound n v`: no factors, or (`weak = true` and the factors are `[x, y]` with
+`KeyVerdict.Sound n v`: no factors, or (`weak = true` and the factors are `[x, y]` with
 `x * y = n`). `SoundProper`: in addition `1 < x < n` (gcd-derived factors). These hold for
 EVERY key, every constructor parameter and every oracle (`red` = the LLL answers, `cbrt`). -/
 
 theorem check_fermat (n maxSteps : Nat) : (vFermat n maxSteps).Sound n := vFermat_sound n maxSteps
 
-theorem check_hlbe (n mb : Nat) (v : Verdict) (h : vHlbe n mb = .ok v) : v.Sound n :=
+theorem check_hlbe (n mb : Nat) (v : KeyVerdict) (h : vHlbe n mb = .ok v) : v.Sound n :=
   vHlbe_sound n mb v h
 
-theorem check_cf (n bound : Nat) (v : Verdict) (h : vCf n bound = .ok v) : v.SoundProper n :=
+theorem check_cf (n bound : Nat) (v : KeyVerdict) (h : vCf n bound = .ok v) : v.SoundProper n :=
   vCf_sound n bound v h
 
-theorem check_bitPatterns (n : Nat) (ps : List Nat) (red : Nat → List (List Int)) (v : Verdict)
+theorem check_bitPatterns (n : Nat) (ps : List Nat) (red : Nat → List (List Int)) (v : KeyVerdict)
     (h : vBitPatterns n ps red = .ok v) : v.SoundProper n :=
   bitPatternsLoop_sound _ _ _ _ _ h
 
-theorem check_permuted (n : Nat) (red : Nat → List (List Int)) (v : Verdict)
+theorem check_permuted (n : Nat) (red : Nat → List (List Int)) (v : KeyVerdict)
     (h : vPermuted n red = .ok v) : v.SoundProper n :=
   permutedOuter_sound _ _ _ _ _ h
 
@@ -113,19 +113,19 @@ theorem check_pollard (n m gb : Nat) : (vPollard n m gb).SoundProper n := vPolla
 theorem check_lhw (n cutoff maxsteps : Nat) : (vLhw n cutoff maxsteps).Sound n :=
   vLhw_sound n cutoff maxsteps
 
-theorem check_sud (n cbrt : Nat) (v : Verdict) (h : vSud n cbrt = .ok v) : v.SoundProper n :=
+theorem check_sud (n cbrt : Nat) (v : KeyVerdict) (h : vSud n cbrt = .ok v) : v.SoundProper n :=
   vSud_sound n cbrt v h
 
-theorem check_unseeded (n cbrt : Nat) (cands : List Nat) (v : Verdict)
+theorem check_unseeded (n cbrt : Nat) (cands : List Nat) (v : KeyVerdict)
     (h : vUnseeded n cbrt cands = .ok v) : v.SoundProper n :=
   unseededLoop_sound _ _ _ _ h
 
 /-- every recorded value divides the modulus (the one-division verification of C01). -/
-theorem sound_all_dvd (n : Nat) (v : Verdict) (h : v.Sound n) : ∀ f ∈ v.factors, f ∣ n :=
+theorem sound_all_dvd (n : Nat) (v : KeyVerdict) (h : v.Sound n) : ∀ f ∈ v.factors, f ∣ n :=
   h.all_dvd
 
 /-- factors are attached only together with the weak verdict. -/
-theorem factors_imply_weak (n : Nat) (v : Verdict) (h : v.Sound n) (hf : v.factors ≠ []) :
+theorem factors_imply_weak (n : Nat) (v : KeyVerdict) (h : v.Sound n) (hf : v.factors ≠ []) :
     v.weak = true := by
   rcases h with h | ⟨hw, _⟩
   · exact absurd h hf
